@@ -1,6 +1,8 @@
 import HbsModel.Registry
 import HbsModel.Lemmas.RM
 import HbsModel.Lemmas.Write
+import HbsModel.Lemmas.CompilePlain
+import HbsModel.Lemmas.Assoc
 /-
   C03  Template text outside tags is reproduced verbatim.
 -/
@@ -86,5 +88,94 @@ theorem rawString_one_escape (slice : Str) (p : CTok) (esc : Nat) (r : Str)
     pair's own span, so whitespace pest skipped between `{{{{raw}}}}` and the body is lost; the model
     reproduces it (evaluated by the driver on `{{{{raw}}}} x {{{{/raw}}}}`; see known_findings.json). -/
 theorem raw_block_uses_span_only (src : Str) (t : CTok) : tokStr src t = (src.drop t.s).take (t.e - t.s) := rfl
+
+end Hbs.C03
+
+/-! ### a template without `{{` renders to itself – from the SOURCE TEXT, through the grammar
+    regenerated from src/grammar.pest and the loop of compile2, to the bytes written -/
+namespace Hbs.C03
+open Hbs RM Hbs.PlainText
+
+/-- the source contains no `{{` (lone braces, backslashes and everything else are allowed) -/
+abbrev noOpen := PlainText.noOpen
+
+/-- the parse of a source without `{{`: template( raw_text ) EOI (see Lemmas/PlainText: a big-step proof
+    system for the PEG interpreter, a verified end-of-input analysis decided over the regenerated grammar,
+    and an induction over the characters – including runs of backslashes, which `escape` tries first) -/
+theorem parse_plain (s : Str) (hne : s ≠ []) (hs : noOpen s) :
+    Pest.parse Grammar.rules Grammar.ws .r_handlebars s = .ok ⟨s.length, []⟩ (plainToks s.length) :=
+  PlainText.parse_plain s hne hs
+
+/-- for EVERY non-empty string without `{{` – any length, any characters: lone braces, backslashes,
+    quotes, CR, LF, tabs, non-ASCII – compile2 yields the single element RawString(s) -/
+theorem compile_plain (s : Str) (opts : TemplateOptions) (hne : s ≠ []) (hs : noOpen s) :
+    compile2 s opts = .ok (.mk opts.name [.raw s] [(1, 1)]) :=
+  PlainText.compile_plain s opts hne hs
+
+theorem compile_empty (opts : TemplateOptions) : compile2 [] opts = .ok (.mk opts.name [] []) :=
+  PlainText.compile_empty opts
+
+/-- the template `[RawString s]` writes `s` -/
+theorem render_single_raw (reg : Registry) (root : Json) (name : Option Str) (s : Str) (hne : s ≠ []) (rc : RC)
+    (hi : rc.indentString = none) :
+    runRM (renderTemplate reg root renderFuel (.mk name [.raw s] [(1, 1)])) rc {} = .ok s := by
+  obtain ⟨rc', h⟩ := render_raw_verbatim reg root (renderFuel - 3) s { rc with currentTemplate := name } {} hne hi (by simp)
+  have hf : renderFuel = (renderFuel - 3 + 1) + 2 := by decide
+  unfold runRM
+  rw [hf]
+  simp only [renderTemplate, renderElems, RM.bind_def, RM.bnd_apply, RM.get_apply, RM.modify_apply, RM.mapErr,
+    Tmpl.name, Tmpl.elements, Tmpl.mapping, h, List.drop, RM.pure_def, RM.ret_apply]
+  cases name <;> simp [Out.text]
+
+theorem render_empty_template (reg : Registry) (root : Json) (name : Option Str) (rc : RC) :
+    runRM (renderTemplate reg root renderFuel (.mk name [] [])) rc {} = .ok [] := by
+  have hf : renderFuel = (renderFuel - 2) + 2 := by decide
+  unfold runRM
+  rw [hf]
+  simp only [renderTemplate, renderElems, RM.bind_def, RM.bnd_apply, RM.get_apply, RM.modify_apply,
+    Tmpl.name, Tmpl.elements, Tmpl.mapping, RM.pure_def, RM.ret_apply]
+  cases name <;> simp [Out.text]
+
+/-- **a template without `{{` renders to itself**, for any data, through `render_template` (registry
+    not in dev mode): source text in, the same text out.  This is the first clause of the property at
+    full strength: EVERY string that does not contain `{{`, the empty one included. -/
+theorem template_without_tags_renders_to_itself (r : Registry) (fs : FS) (s : Str) (data : Json)
+    (hdev : r.dev = false) (hs : noOpen s) :
+    r.renderTemplate fs s data = .ok s := by
+  unfold Registry.renderTemplate Registry.renderTemplateToWrite Registry.renderTemplateWithContextToWrite
+    Registry.compileForRenderTemplate
+  by_cases hne : s = []
+  · subst hne
+    rw [compile_empty]
+    simp only [Registry.renderResolved, hdev, Bool.not_false, ↓reduceIte]
+    exact render_empty_template r data none _
+  · rw [compile_plain s _ hne hs]
+    simp only [Registry.renderResolved, hdev, Bool.not_false, ↓reduceIte]
+    exact render_single_raw r data none s hne _ rfl
+
+/-- … and registered under a name and rendered with `render` -/
+theorem registered_template_without_tags_renders_to_itself (r : Registry) (fs : FS) (name s : Str) (data : Json)
+    (hdev : r.dev = false) (hs : noOpen s) :
+    ∃ r', r.registerTemplateString name s = .ok r' ∧ r'.render fs name data = .ok s := by
+  unfold Registry.registerTemplateString
+  by_cases hne : s = []
+  · subst hne
+    rw [compile_empty]
+    refine ⟨_, rfl, ?_⟩
+    simp only [Registry.render, Registry.renderToOutput, Registry.getOrLoad, Registry.getOrLoadOptional,
+      Registry.registerTemplate, hdev, assocInsert, assocGet_insert_same, Option.map_some]
+    simp only [Registry.renderResolved, hdev, Bool.not_false, ↓reduceIte]
+    exact render_empty_template _ data _ _
+  · rw [compile_plain s _ hne hs]
+    refine ⟨_, rfl, ?_⟩
+    simp only [Registry.render, Registry.renderToOutput, Registry.getOrLoad, Registry.getOrLoadOptional,
+      Registry.registerTemplate, hdev, assocInsert, assocGet_insert_same, Option.map_some]
+    simp only [Registry.renderResolved, hdev, Bool.not_false, ↓reduceIte]
+    exact render_single_raw _ data _ s hne _ rfl
+
+/-- non-vacuity: the hypothesis holds of a string with a lone brace, a backslash before a brace, quotes,
+    line breaks and non-ASCII -/
+example : noOpen ['a', '{', 'b', '\\', '{', '"', '\n', '}', 'é', '\r', '{'] := by
+  simp [noOpen, PlainText.noOpen]
 
 end Hbs.C03
